@@ -57,6 +57,9 @@ def _geoms(tier):
     # 4096-byte sectors, size an exact multiple of the block size (the last sector is the last sector of the last block)
     q.append(dict(bs=MB, sec=4096, W=3, cut=0, at=0, total=None, seqs=[7, 6], regions=["meta", "bat"], meta_mb=2, bat_mb=3,
                   alpha="small"))
+    # BAT entries beyond index 65536 (a 64 GiB disk of 1 MiB blocks)
+    q.append(dict(bs=MB, sec=512, W=3, cut=512 * 7, at=65534, total=65538, seqs=[7, 6], regions=["meta", "bat"], meta_mb=2, bat_mb=3,
+                  alpha="small"))
     # payload starting directly behind the 1 MiB header section, metadata region and BAT behind the payload
     q.append(dict(bs=MB, sec=512, W=3, cut=512, at=0, total=None, seqs=[7, 6], regions=["meta", "bat"], meta_mb=8, bat_mb=9,
                   base_mb=1, alpha="small"))
